@@ -38,7 +38,7 @@ void harness(void) {
   g_cc.slots = (cbor_item_t **)it->data; g_cc.n = it->metadata.array_metadata.end_ptr;
 #endif
   cbor_item_t snap = *it; /* every field of the source node header */
-  size_t live0 = g_live;
+  size_t live0 = g_live, free0 = g_free_calls;
   cbor_item_t *r = cbor_copy__top(it);
 
   /* the source node is untouched; transient references on its children were given back */
@@ -47,6 +47,10 @@ void harness(void) {
   __CPROVER_assert(g_c.inc == g_c.dec, "C11: every transient reference taken on a child of the source was given back");
   if (r == NULL) {
     __CPROVER_assert(g_refused || g_c.child_failed, "C06: cbor_copy fails only when an allocation was refused");
+#if defined(COPY_KIND_TAG)
+    if (g_c.calls == 1 && !g_c.child_failed)
+      __CPROVER_assert(g_free_calls > free0, "C06,C04: when the tag itself cannot be allocated the already made copy of the tagged item is released");
+#endif
 #if defined(COPY_KIND_INT) || defined(COPY_KIND_FLOAT_CTRL) || defined(COPY_KIND_DEF_BYTESTRING) || defined(COPY_KIND_DEF_STRING)
     __CPROVER_assert(g_live == live0, "C06: a failed copy leaves nothing allocated");
 #endif
@@ -104,5 +108,5 @@ void harness(void) {
   }
   __CPROVER_assert(r == NULL, "COVER copied");
   __CPROVER_assert(r != NULL, "COVER copy failed (allocation refused)");
-  (void)snap;
+  (void)snap; (void)free0;
 }
